@@ -356,7 +356,17 @@ def child(arg):
     r2 = {"what": r["what"], "input": c[0], "got": c[1] and c[1][0], "want": c[2] and c[2][0]}
     r2["key"] = f"Layer A: {r['what']}: input {c[0]}"
     recs.append(r2)
-  return {"n": acc.n, "fps": sorted(acc.fps), "violations": acc.violations[:60],
+  # ship every distinct mechanism (first 3 witnesses each), so that a flood of one
+  # mechanism can never push another one over the cap
+  by_key = {}
+  for v in acc.violations:
+    by_key.setdefault(v["key"], []).append(v)
+  shipped = []
+  for key, vs in by_key.items():
+    for v in vs[:3]:
+      v["instances_in_batch"] = len(vs)
+      shipped.append(v)
+  return {"n": acc.n, "fps": sorted(acc.fps), "violations": shipped[:600],
           "nviol": len(acc.violations), "counters": acc.c, "samples": acc.samples,
           "errkinds": acc.errkinds, "monitor": snap, "monitor_records": recs[:40],
           "hierarchies": len(hs)}
@@ -456,8 +466,7 @@ def run(tier, seed):
       ck.sample(s)
     for w in r["violations"]:
       ck.violation(w.pop("key"), w)
-    if r["nviol"] > len(r["violations"]):
-      ck.count("violations not shipped by children (over the per-batch cap)", r["nviol"] - len(r["violations"]))
+    ck.count("disagreements observed by children (all instances)", r["nviol"])
     m = r["monitor"]
     for k in ("calls", "evaluations", "ok_merges", "error_merges"):
       mon[k] += m[k]
